@@ -88,6 +88,7 @@ class TriggerHandler:
         """
         self.__old_thread_trace = None
         self.__old_sys_trace = None
+        self.__trace_installed = False
         self._push_service = push_service
         self._tp_config: List[Trigger] = []
         self._config = config
@@ -106,6 +107,7 @@ class TriggerHandler:
         self.__old_thread_trace = threading.gettrace() if hasattr(threading, 'gettrace') else threading._trace_hook
         sys.settrace(self.trace_call)
         threading.settrace(self.trace_call)
+        self.__trace_installed = True
 
     def new_config(self, new_config: List['Trigger']):
         """
@@ -239,5 +241,11 @@ class TriggerHandler:
 
         Reset the settrace to the previous values.
         """
+        # threads that already use our trace function keep it, so make sure it has nothing left to act on
+        self._tp_config = []
+        # only put back the previous values if we did replace them (we do not when NO_TRACE is set)
+        if not self.__trace_installed:
+            return
+        self.__trace_installed = False
         sys.settrace(self.__old_sys_trace)
         threading.settrace(self.__old_thread_trace)
